@@ -5,5 +5,5 @@ wt=/tmp/pyvc_scratch/$seed.$$
 mkdir -p /tmp/pyvc_scratch
 git -C /repo worktree add -q --detach "$wt" HEAD || exit 3
 trap 'git -C /repo worktree remove --force "$wt"' EXIT INT TERM
-git -C "$wt" apply "$(cd "$(dirname "$0")/.." && pwd)/seeded/$seed/patch.diff" || exit 3
+git -C "$wt" apply "$(cd "$(dirname "$0")/.." && pwd)/${SEED_DIR:-seeded}/$seed/patch.diff" || exit 3
 OVLD_REPO="$wt" "$@"
